@@ -35,6 +35,8 @@ var binToks = []token.Token{token.Add, token.Sub, token.Mul, token.Quo, token.Re
 
 var unToks = []token.Token{token.Add, token.Sub, token.Xor, token.Not}
 
+var poolErr = &ugo.Error{Name: "error", Message: "x"}
+
 // Pool returns the value pool; thorough adds more boundary values.
 func Pool(thorough bool) []ugo.Object {
 	nan := math.NaN()
@@ -51,6 +53,8 @@ func Pool(thorough bool) []ugo.Object {
 		ugo.Char(0), ugo.Char(1), ugo.Char('a'), ugo.Char(0x10FFFF), ugo.Char(-1), ugo.Char(math.MaxInt32), ugo.Char(math.MinInt32), ugo.Char(31), ugo.Char(32),
 		ugo.True, ugo.False,
 		ugo.String(""), ugo.String("a"), ugo.String("b"), ugo.String("\xff"), ugo.String("1"),
+		// an error value and the same error as the VM hands it to a catch block
+		poolErr, &ugo.RuntimeError{Err: poolErr}, &ugo.Error{Name: "error", Message: "x"},
 		ugo.Bytes{}, ugo.Bytes("a"), ugo.Bytes("b"),
 		ugo.Array{}, ugo.Array{ugo.Int(1)}, ugo.Array{ugo.Float(1)}, ugo.Array{ugo.True}, ugo.Array{ugo.Char(1)}, ugo.Array{ugo.Uint(1)},
 		ugo.Array{ugo.Array{ugo.Int(1)}, ugo.Map{"k": ugo.Float(1)}}, ugo.Array{ugo.Array{ugo.True}, ugo.Map{"k": ugo.Char(1)}},
@@ -503,6 +507,26 @@ func pair(c *fw.Ctx, r *runner, a, b ugo.Object) {
 				}
 				if alt.panic == nil && alt.err == nil && !uv.Same(alt.v, d.v) {
 					c.Violation(key("law", a, tok, b, "concat"), fmt.Sprintf("%s + %s = %s, but with the non-string operand first added to the empty string it is %s", uv.Repr(a), uv.Repr(b), d, alt), nil)
+				}
+			}
+		}
+		// results are values: extending a result twice gives two independent results (no shared backing store)
+		if tok == token.Add && d.panic == nil && d.err == nil {
+			switch d.v.(type) {
+			case ugo.Bytes, ugo.Array:
+				x1 := direct(token.Add, d.v, b)
+				if x1.panic == nil && x1.err == nil {
+					before := uv.Repr(x1.v)
+					self := uv.Repr(d.v)
+					x2 := direct(token.Add, d.v, a)
+					_ = x2
+					x3 := direct(token.Add, d.v, d.v)
+					_ = x3
+					if after := uv.Repr(x1.v); after != before {
+						c.Violation(key("law", a, tok, b, "alias"), fmt.Sprintf("r := %s + %s; x := r + %s is %s, but after also evaluating r + %s it is %s", uv.Repr(a), uv.Repr(b), uv.Repr(b), before, uv.Repr(a), after), nil)
+					} else if now := uv.Repr(d.v); now != self {
+						c.Violation(key("law", a, tok, b, "alias"), fmt.Sprintf("r := %s + %s is %s, after evaluating r + x it is %s", uv.Repr(a), uv.Repr(b), self, now), nil)
+					}
 				}
 			}
 		}
